@@ -214,3 +214,62 @@ def check_loop_contributes(ctx, rule, fn, iter_pred, contribute_pred, exempt_pre
                 detail = f'iteration without contribution: {path_text(p)}'
                 break
     return ctx.ob(rule, fkey(fn, rule, keytext), not bad, f'{fn.module.relpath}:{head.lineno}', desc, detail)
+
+
+# ---------------------------------------------------------------------- A5acc: removal accumulators are threaded
+ACC_TABLE = {
+    ('adsg_core.graph.traversal:get_derived_edges_for_node', 'removed_edges'):
+        'the recursion passes removed_edges | derived_edges computed before the loop; edges found for earlier '
+        'siblings are not fed back (existing behaviour, not decided here)',
+}
+
+
+def check_accumulators_threaded(ctx, fns, callees=('get_derived_edges_for_node', 'get_derived_edges_for_edge'),
+                                rule='A5acc'):
+    """Whether a node is derived *only* by the node being removed depends on what has been removed already.  Where the
+    results of get_derived_edges_for_* are accumulated in a loop (`R_e |= derived_edges`, `R_n |= derived_nodes`),
+    the call hands the accumulators back in as removed_edges= / removed_nodes= - otherwise a node jointly derived
+    by two removed nodes is kept."""
+    n = 0
+    for fn in fns:
+        if isinstance(fn.node, ast.Lambda):
+            continue
+        for loop in [x for x in ast.walk(fn.node) if isinstance(x, (ast.For, ast.While))]:
+            body_stmts = [s for st in loop.body for s in ast.walk(st) if isinstance(s, ast.stmt)]
+            for st in body_stmts:
+                if not (isinstance(st, ast.Assign) and isinstance(st.value, ast.Call) and
+                        call_name(st.value) in callees and isinstance(st.targets[0], ast.Tuple) and
+                        len(st.targets[0].elts) == 2 and all(isinstance(e, ast.Name) for e in st.targets[0].elts)):
+                    continue
+                # innermost loop only
+                inner = [l for l in ast.walk(loop) if isinstance(l, (ast.For, ast.While)) and l is not loop and
+                         any(s is st for s in ast.walk(l))]
+                if inner:
+                    continue
+                call = st.value
+                res = [e.id for e in st.targets[0].elts]
+                kws = {k.arg: k.value for k in call.keywords if k.arg}
+                for r, kwname in zip(res, ('removed_edges', 'removed_nodes')):
+                    accs = [a for a in body_stmts if isinstance(a, ast.AugAssign) and isinstance(a.op, ast.BitOr) and
+                            isinstance(a.target, ast.Name) and
+                            any(isinstance(x, ast.Name) and x.id == r for x in ast.walk(a.value))]
+                    accs += [a for a in body_stmts if isinstance(a, ast.Expr) and isinstance(a.value, ast.Call) and
+                             call_name(a.value) == 'update' and isinstance(a.value.func.value, ast.Name) and
+                             any(isinstance(x, ast.Name) and x.id == r for y in a.value.args for x in ast.walk(y))]
+                    if not accs:
+                        continue
+                    names = {a.target.id if isinstance(a, ast.AugAssign) else a.value.func.value.id for a in accs}
+                    passed = kws.get(kwname)
+                    ok = passed is not None and any(isinstance(x, ast.Name) and x.id in names for x in ast.walk(passed))
+                    if not ok and (fn.key, kwname) in ACC_TABLE:
+                        ctx.used_exception(rule, f'{fn.key}:{kwname}', ACC_TABLE[(fn.key, kwname)])
+                        continue
+                    n += 1
+                    ctx.touch(fn)
+                    ctx.ob(rule, fkey(fn, rule, f'{call_name(call)}:{kwname}<-{"/".join(sorted(names))}'), ok,
+                           f'{fn.module.relpath}:{call.lineno}',
+                           f'the derived-only computation is told what this loop has removed so far: {kwname}= receives '
+                           f'the accumulator `{"/".join(sorted(names))}`',
+                           f'{kwname}={norm(passed)}' if passed is not None else
+                           f'{kwname}= is not passed: every iteration decides derived-only against the untouched graph')
+    return n
